@@ -8,7 +8,7 @@ CONSTANTS
   MaxNpts = 4
   Acts = {"CvArith", "CvScalar"}
   PtKinds = {"gen", "pos"}
-  WtKinds = {"none", "gen"}
+  WtKinds = {"none", "gen", "const"}
   ExtraNodes <- Extra0
   NodeSize = 2
   Scenario = "single"
